@@ -35,7 +35,7 @@ func runC05(p *Prog, r *Report) {
 					rp = append(rp, e)
 				}
 			}
-			okCopy := len(bt) == 1 && strings.HasPrefix(bt[0].Args[0], "append($slicelit[:],") && strings.HasSuffix(bt[0].Args[0], ".Header)")
+			okCopy := len(bt) == 1 && privateCopyOfHeader(rm, bt[0])
 			r.Check(okCopy, R, rel+"/backtrace-is-a-copy", bt.Pos(p), "backtrace = append([]byte{}, m.Header...)", "the saved routing header is not a private copy of the request header (it aliases the message buffer the application will free): "+argsOf(bt))
 			r.Check(len(bt) == 1 && len(rp) == 1 && bt.AllHeld(mu) && rp.AllHeld(mu) && bt[0].In.Block() == rp[0].In.Block(), R, rel+"/route-stored-together-under-lock", rp.Pos(p), "backtrace and recvPipe stored together under the lock", "backtrace and recvPipe are not stored together under the socket lock")
 			// same entry: header source and pipe source are fields of one received entry
@@ -197,7 +197,7 @@ func backtraceCopyRule(p *Prog, r *Report, R string) {
 				bt = append(bt, e)
 			}
 		}
-		okCopy := len(bt) == 1 && strings.HasPrefix(bt[0].Args[0], "append($slicelit[:],") && strings.HasSuffix(bt[0].Args[0], ".Header)")
+		okCopy := len(bt) == 1 && privateCopyOfHeader(rm, bt[0])
 		r.Check(okCopy, R, rel+"/backtrace-is-a-copy", bt.Pos(p), "backtrace = append([]byte{}, m.Header...)", "the saved routing header is not a private copy of the request header: once the application frees the request, the next request recycled into that buffer overwrites the saved route and the reply goes to (or is labelled for) another client: "+argsOf(bt))
 	}
 	for _, rel := range []string{"protocol/xrep", "protocol/xrespondent"} {
@@ -279,6 +279,8 @@ func sameEntryPair(hdrVal, pipeVal ssa.Value) bool {
 			}
 		case *ssa.Slice:
 			find(x.X, d+1)
+		case *ssa.MakeSlice:
+			find(x.Len, d+1) // make([]byte, len(M.Header)) + copy
 		case *ssa.UnOp:
 			if fa, ok := x.X.(*ssa.FieldAddr); ok && isMsgPtr(fa.X.Type()) && fieldName(fa.X.Type(), fa.Field) == "Header" {
 				msg = fa.X
@@ -329,6 +331,31 @@ func sameEntryPair(hdrVal, pipeVal ssa.Value) bool {
 	}
 	for b := range mb {
 		return pb[b]
+	}
+	return false
+}
+
+
+// privateCopyOfHeader: the stored value is a fresh slice holding the bytes of some message's
+// Header: `append([]byte{}, M.Header...)`, or `make([]byte, len(M.Header))` filled by
+// `copy(that, M.Header)` before it is stored.
+func privateCopyOfHeader(f *F, st *Ev) bool {
+	v := st.Args[0]
+	if strings.HasPrefix(v, "append($slicelit[:],") && strings.HasSuffix(v, ".Header)") {
+		return true
+	}
+	if strings.HasPrefix(v, "make([],len(") && strings.Contains(v, ".Header)") {
+		for _, c := range f.Ev("call", "copy") {
+			if len(c.Args) != 2 || !strings.HasSuffix(c.Args[1], ".Header") || !strings.Contains(v, "len("+c.Args[1]+")") {
+				continue
+			}
+			if c.Args[0] == v && evDominates(c, st) {
+				return true // filled, then stored
+			}
+			if c.Args[0] == st.What && c.In.Block() == st.In.Block() && evDominates(st, c) && len(c.Held) > 0 && len(st.Held) > 0 {
+				return true // stored, then filled through the field in the same critical section
+			}
+		}
 	}
 	return false
 }
